@@ -245,7 +245,7 @@ def tile_location_quadkey(tile, cache_dir, file_ext, create_dir=False, dimension
                 digit += 2
             quadKey += str(digit)
         tile.location = os.path.join(
-            cache_dir, quadKey + '.' + file_ext
+            cache_dir, dimensions_part(dimensions), quadKey + '.' + file_ext
         )
     if create_dir:
         ensure_directory(tile.location, directory_permissions)
@@ -273,7 +273,7 @@ def tile_location_arcgiscache(tile, cache_dir, file_ext, create_dir=False, dimen
     """
     if tile.location is None:
         x, y, z = tile.coord
-        parts = (cache_dir, 'L%02d' % z, 'R%08x' % y, 'C%08x.%s' % (x, file_ext))
+        parts = (cache_dir, dimensions_part(dimensions), 'L%02d' % z, 'R%08x' % y, 'C%08x.%s' % (x, file_ext))
         tile.location = os.path.join(*parts)
     if create_dir:
         ensure_directory(tile.location, directory_permissions)
